@@ -418,5 +418,5 @@ func predTraces(c tracesCase, o *evid.Obs) error {
 }
 
 func addTraces(r *evid.Run) {
-	evid.Add(r, evid.Prop[tracesCase]{Name: "traces", Quick: 500, Thorough: 5000, Gen: genTraces, Pred: predTraces})
+	evid.Add(r, evid.Prop[tracesCase]{Name: "traces", Quick: 1000, Thorough: 5000, Gen: genTraces, Pred: predTraces})
 }
